@@ -414,7 +414,7 @@ func maxScanOverItems(ph *ssa.Phi, loops []*loopInfo) bool {
 				// loaded inside some loop (the scan)
 				if ins, ok := v.(ssa.Instruction); ok {
 					for _, li := range loops {
-						if li.blocks[ins.Block()] {
+						if li.blocks[ins.Block()] && fullScan(li) {
 							found = true
 						}
 					}
@@ -492,4 +492,18 @@ func isCursor(v ssa.Value, cur *ssa.Phi) bool {
 		}
 	}
 	return false
+}
+
+// fullScan: the loop visits every element: it is left only from its header, on a test against a length (or the end of a
+// range); a scan that also stops on what it finds (walking back while the cues overlap the last one) does not.
+func fullScan(li *loopInfo) bool {
+	for b := range li.blocks {
+		for _, s := range b.Succs {
+			if !li.blocks[s] && b != li.header {
+				return false
+			}
+		}
+	}
+	iff, ok := li.header.Instrs[len(li.header.Instrs)-1].(*ssa.If)
+	return ok && isLoopBoundCond(iff.Cond)
 }
